@@ -7,6 +7,7 @@
    that is tied by K-thread (4 threads x 3 calls with distinct arguments). *)
 From Coq Require Import List.
 From Tawazi Require Import Threads ThreadsFacts.
+From Tawazi Require Import Graph Sched SchedInv Dataflow DataflowFacts Concurrent ConcurrentFacts.
 Import ListNotations.
 
 (* with the repaired predicate ("the build lock is held BY ME"), for every set of thread programs and
@@ -51,3 +52,51 @@ Theorem C16_build_noninterference_refuted :
     In (t, p) ps /\ get_prog ps' t = [] /\ obs_of t log <> alone p [].
 Proof. exact build_noninterference_refuted. Qed.
 Print Assumptions C16_build_noninterference_refuted.
+
+(* CONCURRENT CALLS OF ONE DAG (Concurrent.v): any number of executions of one DAG, each started from its own
+   start map (DAG-level setup results + that call's arguments, Args.bind / Cache.start_map), interleaved in ANY
+   way: what call i has computed is the denotation of ITS OWN start map, and if it finished it computed all
+   of it - whatever the other calls do (they may fail, stall or finish). *)
+Section Calls.
+Variable val : Type.
+Variable vnone : val.
+Variable truthy : val -> bool.
+Variable index : val -> nat -> option val.
+Variable tbl : nat -> nodeT val.
+Variable c : cfg.
+
+Theorem C16_concurrent_calls_isolated starts ils g' i r0 s res :
+  wf c -> consistent val tbl c r0 ->
+  grun val vnone truthy index tbl c (ginit val c starts) ils = Some g' ->
+  nth_error starts i = Some r0 -> nth_error g' i = Some (s, res) ->
+  (forall n v, lookup val res n = Some v -> den val vnone truthy index tbl c r0 n = Some v) /\
+  (pc s = PFinished -> forall n, lookup val res n = den val vnone truthy index tbl c r0 n).
+Proof. exact (concurrent_calls_isolated val vnone truthy index tbl c starts ils g' i r0 s res). Qed.
+
+(* a step of one call leaves the state and the results of every other call untouched *)
+Theorem C16_step_of_one_call_frames_the_others g j l g' i :
+  gstep val vnone truthy index tbl c g (j, l) = Some g' -> i <> j -> nth_error g' i = nth_error g i.
+Proof. exact (gstep_frame val vnone truthy index tbl c g j l g' i). Qed.
+
+(* the projection of a global run onto one call is a run of the single-call scheduler: every theorem about
+   one execution (C02-C06, C09, C14) holds of each concurrent one *)
+Theorem C16_projection_is_a_run ils g g' i sr :
+  grun val vnone truthy index tbl c g ils = Some g' -> nth_error g i = Some sr ->
+  exists sr', nth_error g' i = Some sr' /\ vrun val vnone truthy index tbl c sr (proj i ils) = Some sr'.
+Proof. exact (grun_proj val vnone truthy index tbl c ils g g' i sr). Qed.
+
+(* non-vacuity of the interleaving semantics: single-call runs accepted one by one are accepted as a global
+   run, ending in the same per-call states *)
+Theorem C16_every_family_of_runs_is_an_interleaving runs i (g : gstate val) (finals : list (call val)) :
+  length runs = length finals ->
+  (forall k ls, nth_error runs k = Some ls -> exists sr sr', nth_error g (i + k) = Some sr /\ nth_error finals k = Some sr' /\
+      vrun val vnone truthy index tbl c sr ls = Some sr') ->
+  exists g', grun val vnone truthy index tbl c g (serial i runs) = Some g' /\
+    (forall k sr', nth_error finals k = Some sr' -> nth_error g' (i + k) = Some sr') /\
+    (forall m, m < i -> nth_error g' m = nth_error g m).
+Proof. exact (serial_accepted val vnone truthy index tbl c runs i g finals). Qed.
+End Calls.
+Print Assumptions C16_concurrent_calls_isolated.
+Print Assumptions C16_step_of_one_call_frames_the_others.
+Print Assumptions C16_projection_is_a_run.
+Print Assumptions C16_every_family_of_runs_is_an_interleaving.
